@@ -546,6 +546,8 @@ prep_task(echsx_task_t t)
 	int rc = 0;
 
 #define NULFD	(nulfd_used++, nulfd)
+	/* mkstemp() has filled in the template for the task before */
+	memcpy(tmpl + strlenof(tmpl) - 8U, "XXXXXXXX", 8U);
 	/* put some sane defaults into t */
 	t->ifd = t->ofd = t->efd = t->mfd = -1;
 	t->opip = t->epip = t->teeo = t->teee = -1;
